@@ -194,6 +194,10 @@ def run_cli_case(case):
         rmtree(d)
 
 
+def sets_link(k):
+    return any(".link" in t for t in (k.text,) + tuple(k.pre))
+
+
 def build_pair(k1, k2, location):
     """Two faults in one file (C->M on multi-fault programs; the first error must start at one of the culprits)."""
     r1, r2 = k1.render(1), k2.render(2)
@@ -291,7 +295,7 @@ def main(run):
     for i, k1 in enumerate(noncrit):
         for j in (1, 7, 19) if thorough else (1 + (i + run.seed) % 23,):
             k2 = noncrit[(i + j) % len(noncrit)]
-            if k2.name != k1.name and not (".link 3000" in k1.pre and ".link 3000" in k2.pre):
+            if k2.name != k1.name and not (sets_link(k1) and sets_link(k2)):       # two '.link' would conflict by themselves
                 pairs.append(build_pair(k1, k2, LOCATIONS[(i + j) % 3]))
     for case, res in zip(pairs, pmap(run_pair, pairs)):
         run.add_nontrivial(("pair", case["kind"], case["cfile"]))
